@@ -327,8 +327,12 @@ def gen_history(rng, infos, length):
             reqs.append(dict(op="reload", model=model))
         elif r < 0.18:
             reqs.append(dict(op="make_kernel", model=model, q=q))
-        elif r < 0.30 and dim == "1d" and "@" not in model and "+" not in model:
+        elif r < 0.30 and "@" not in model and "+" not in model and "*" not in model:
             pars = gen_pars(info, rng, dim)
+            # orientation dispersity is part of the object's state whatever the data: inactive for 1-D q, active for 2-D
+            for p_ in info.parameters.call_parameters:
+                if p_.type == "orientation" and rng.random() < 0.6:
+                    pars[p_.name + "_pd"] = rng.uniform(3, 20); pars[p_.name + "_pd_n"] = rng.choice([3, 6, 10])
             pars = {k: v for k, v in pars.items() if not k.endswith("_pd_type")}
             req = dict(op=rng.choice(["sasview", "sasview_clone"]), model=model, q=q, cutoff=cutoff, settings=sasview_settings(pars, info))
             pd1 = [n for n in info.parameters.pd_1d if n in pars and pars[n] > 0]
@@ -341,6 +345,11 @@ def gen_history(rng, infos, length):
                 wts = [rng.choice([0.05, 0.1, 0.2, 0.3, 0.55, 0.7, 1.0, 2.5]) for _ in range(k)]
                 req["arrays"] = {pn: dict(values=vals, weights=wts)}
             reqs.append(req)
+            if model in MODELS_2D and rng.random() < 0.7:
+                # the same object, same settings, asked for the other kind of data (and back)
+                other = rng.choice(qs1 if dim == "2d" else qs2)
+                reqs.append(dict(req, q=other, op="sasview"))
+                reqs.append(dict(req, op="sasview"))
             if rng.random() < 0.5:
                 # the same object edited in place: values change, every dispersity setting stays
                 req2 = dict(req, settings=[[k, (v * 1.37 if (isinstance(v, float) and "." not in k and v > 0 and k not in ("scale", "background") and not k.startswith(("sld", "theta", "phi", "psi"))) else v)]
@@ -378,7 +387,7 @@ def main(run):
     wpath = os.path.join(wdir, "worker.py")
     open(wpath, "w").write(WORKER)
     cache = run.scratch.dll
-    infos = {m: load_model_info(m) for m in set(MODELS_1D + MODELS_2D)}
+    infos = {m: load_model_info(m) for m in set(MODELS_1D + MODELS_2D + ["ellipsoid"])}
     nhist = 6 if not thorough else 60
     length = 18 if not thorough else 40
     # warm the library cache so that parallel fresh processes do not all compile
@@ -394,6 +403,22 @@ def main(run):
         dict(op="call_kernel", model="sphere", q=[[0.01, 0.05, 0.2]], cutoff=0.0, pars={"radius": -20.0, "radius_pd": 0.1, "radius_pd_n": 10, "background": 0.5}),
         dict(op="call_kernel", model="sphere", q=[[0.01, 0.05, 0.2]], cutoff=0.0, pars={"radius": 50.0}),
     ])
+    # corpus: one SasView object of an oriented model with orientation dispersity, asked for 1-D, 2-D, 1-D, 2-D data and
+    # cloned in between; the same for a second model with the 2-D request first
+    for mname, first2d in (("cylinder", False), ("parallelepiped", True), ("ellipsoid", False)):
+        inf = infos.get(mname) or load_model_info(mname)
+        infos[mname] = inf
+        pars = gen_pars(inf, rng, "2d")
+        pars = {k: v for k, v in pars.items() if not k.endswith("_pd_type") and not k.startswith("up_") and "_M0" not in k}
+        for p_ in inf.parameters.call_parameters:
+            if p_.type == "orientation":
+                pars[p_.name + "_pd"] = rng.uniform(5, 25); pars[p_.name + "_pd_n"] = rng.choice([4, 7])
+        st = sasview_settings(pars, inf)
+        q1_, q2_ = [[0.01, 0.05, 0.2]], [[0.03, -0.05, 0.1], [0.04, 0.05, -0.02]]
+        order = [q2_, q1_, q2_, q1_] if first2d else [q1_, q2_, q1_, q2_]
+        h = [dict(op="sasview", model=mname, q=qq, cutoff=1e-5, settings=st) for qq in order]
+        h.insert(2, dict(op="sasview_clone", model=mname, q=order[1], cutoff=1e-5, settings=st))
+        histories.insert(1, h)
     # fresh-process oracle, memoised per distinct request
     oracle = {}
     todo = []
